@@ -3,7 +3,7 @@
    binding function, and is injective on delimiter-free keys/values.
    The delimiters are opaque here: only Proof/ParamsOkKey.v is used. *)
 From Coq Require Import ZArith List Bool Lia Permutation.
-From Tally Require Import Base.Obs Model.KeyGen Proof.ParamsOkKey.
+From Tally Require Import Base.ObsCore Model.KeyGen Proof.ParamsOkKey.
 Import ListNotations.
 Open Scope Z_scope.
 
